@@ -159,4 +159,42 @@ def decode (bs : List UInt8) : Option Image :=
         | _ => none
     | _ => none
 
+/-! ## What a standard decoder reports for a decoded image
+
+PNG 2nd edition §6.1/§13.12 (and Go's image/png, which the harness compares with on every case):
+colour type 0 is greyscale, 2 is truecolour WITHOUT an alpha channel — every pixel fully opaque —,
+4 and 6 are the same with an alpha sample.  `Image.rgba` is the (R, G, B, A) tuple of a pixel,
+non-premultiplied, in units of the image's own bit depth (0 … 2^depth − 1). -/
+
+/-- sample `c` (0-based) of pixel (x, y) when pixels have `ch` samples: the big-endian value of its
+`depth/8` bytes in `pixels` (rows of `width * ch * depth/8` bytes, no padding). -/
+def Image.sample (im : Image) (ch x y c : Nat) : Nat :=
+  let bps := im.depth / 8
+  let i := ((y * im.width + x) * ch + c) * bps
+  if bps = 2 then (im.pixels.getD i 0).toNat * 256 + (im.pixels.getD (i + 1) 0).toNat
+  else (im.pixels.getD i 0).toNat
+
+/-- the largest sample value, i.e. "fully opaque" when it is the alpha -/
+def Image.maxval (im : Image) : Nat := 2 ^ im.depth - 1
+
+/-- (R, G, B, A) of pixel (x, y); `none` outside the image. -/
+def Image.rgba (im : Image) (x y : Nat) : Option (Nat × Nat × Nat × Nat) :=
+  if x < im.width ∧ y < im.height then
+    match im.colorType with
+    | 0 => some (im.sample 1 x y 0, im.sample 1 x y 0, im.sample 1 x y 0, im.maxval)
+    | 2 => some (im.sample 3 x y 0, im.sample 3 x y 1, im.sample 3 x y 2, im.maxval)
+    | 4 => some (im.sample 2 x y 0, im.sample 2 x y 0, im.sample 2 x y 0, im.sample 2 x y 1)
+    | 6 => some (im.sample 4 x y 0, im.sample 4 x y 1, im.sample 4 x y 2, im.sample 4 x y 3)
+    | _ => none
+  else none
+
+/-- the Go type `image/png.Decode` returns for this depth and colour type -/
+def Image.goType (im : Image) : String :=
+  match im.colorType, im.depth with
+  | 0, 8 => "Gray" | 0, 16 => "Gray16"
+  | 2, 8 => "RGBA" | 2, 16 => "RGBA64"
+  | 4, 8 => "NRGBA" | 4, 16 => "NRGBA64"
+  | 6, 8 => "NRGBA" | 6, 16 => "NRGBA64"
+  | _, _ => "?"
+
 end WuffsVerif.Png.Spec
